@@ -5,6 +5,8 @@ From FP Require Import KernelContract WideDivFacts MulFacts.
 From FP Require Import GenTieTac GenTiePow GenTieWide GenTieRound.
 
 
+Ltac dec_fin := repeat (cbv beta iota zeta; cbn [bind]; try to_model; tie2_step); cbn [bind negb andb orb]; try fin.
+
 Lemma tie_eq_zero pf d : g_Decimal_eq_zero pf d = Val (eq_zero d).
 Proof. reflexivity. Qed.
 Lemma tie_eq_one pf d : g_Decimal_eq_one pf d = eq_one d.
@@ -26,45 +28,44 @@ Proof.
       destruct o; reflexivity.
 Qed.
 
+Ltac mul_model :=
+  try to_model;
+  repeat match goal with |- context [g_checked_mul_rounded ?pf ?dflt ?x ?y ?n] =>
+    rewrite (tie_checked_mul_rounded pf dflt x y n) by (first [assumption | lia | (vm_compute; discriminate)]) end.
+Ltac mul_fin := repeat (cbv beta iota zeta; cbn [bind]; mul_model; tie2_step); cbn [bind negb andb orb]; try fin.
+
 Lemma tie_mul pf dflt x y : g_Mul_mul pf dflt x y = dec_mul pf dflt x y.
 Proof.
-  unfold g_Mul_mul, dec_mul, g_Decimal_eq_zero. change g_Decimal_eq_one with (fun (_ : profile) => eq_one). cbv beta.
+  unfold g_Mul_mul, dec_mul, g_Decimal_eq_zero. unfold_helpers_dec.
+  change g_Decimal_eq_one with (fun (_ : profile) => eq_one). cbv beta.
+  change g_MAX_N_FRAC_DIGITS with MAX_N_FRAC_DIGITS.
   cbn [bind]. fold (eq_zero x) (eq_zero y). unfold DZERO, or_panic.
   destruct (eq_zero x); cbn [bind orb]; [reflexivity|].
   destruct (eq_zero y); cbn [bind]; [reflexivity|].
-  dres (eq_one y) as oy. destruct oy; [reflexivity|].
-  dres (eq_one x) as ox. destruct ox; [reflexivity|].
-  change g_MAX_N_FRAC_DIGITS with MAX_N_FRAC_DIGITS.
-  rewrite tie_checked_mul_rounded by (vm_compute; discriminate).
-  dres (checked_mul_rounded pf dflt x y MAX_N_FRAC_DIGITS) as o. destruct o; reflexivity.
+  mul_fin.
 Qed.
 
 Lemma tie_mul_rounded pf dflt x y n : 0 <= n ->
   g_MulRounded_mul_rounded pf dflt x y n = dec_mul_rounded pf dflt x y n.
 Proof.
-  intros Hn. unfold g_MulRounded_mul_rounded, dec_mul_rounded, g_Decimal_eq_zero.
+  intros Hn. unfold g_MulRounded_mul_rounded, dec_mul_rounded, g_Decimal_eq_zero. unfold_helpers_dec.
   change g_MAX_N_FRAC_DIGITS with MAX_N_FRAC_DIGITS.
   cbn [bind]. fold (eq_zero x) (eq_zero y). unfold DZERO, or_panic.
-  destruct (n >? MAX_N_FRAC_DIGITS); cbn [bind]; [reflexivity|].
+  destruct (n >? MAX_N_FRAC_DIGITS) eqn:En; cbn [bind]; [reflexivity|].
   destruct (eq_zero x); cbn [bind orb]; [reflexivity|].
   destruct (eq_zero y); cbn [bind]; [reflexivity|].
-  rewrite tie_checked_mul_rounded by exact Hn.
-  dres (checked_mul_rounded pf dflt x y n) as o. destruct o; reflexivity.
+  mul_fin.
 Qed.
 
 Lemma tie_checked_mul pf x y : g_CheckedMul_checked_mul pf x y = dec_checked_mul pf x y.
 Proof.
-  unfold g_CheckedMul_checked_mul, dec_checked_mul, g_Decimal_eq_zero.
+  unfold g_CheckedMul_checked_mul, dec_checked_mul, g_Decimal_eq_zero. unfold_helpers_dec.
   change g_Decimal_eq_one with (fun (_ : profile) => eq_one). cbv beta.
   change g_MAX_N_FRAC_DIGITS with MAX_N_FRAC_DIGITS.
   cbn [bind]. fold (eq_zero x) (eq_zero y). unfold DZERO.
   destruct (eq_zero x); cbn [bind orb]; [reflexivity|].
   destruct (eq_zero y); cbn [bind]; [reflexivity|].
-  dres (eq_one y) as oy. destruct oy; [reflexivity|].
-  dres (eq_one x) as ox. destruct ox; [reflexivity|].
-  dres (ck_add pf U8 (nfd x) (nfd y)) as n.
-  destruct (n >? MAX_N_FRAC_DIGITS); [reflexivity|].
-  destruct (checked I128 (coeff x * coeff y)); reflexivity.
+  dec_fin.
 Qed.
 
 Lemma src_mul_acc pf m x y : wf x = true -> wf y = true ->
